@@ -4,6 +4,7 @@
    so that the specification (`prob`, `gen`, `lang`, `mass`, `bounded`) can be evaluated. -/
 import PS.Drv.Wire
 import PS.Model.Prob
+import PS.Model.Ttcfg
 namespace PS.C04
 open PS PS.G PS.U PS.Wire Sexp
 
@@ -183,6 +184,20 @@ def handle : Sexp → Option Sexp
         match kb with
         | some k => .list [ofNat ((G.starts.map (fun s => countU G k s)).sum),
                            ofNat ((G.starts.map (fun s => (langU G k s).length)).sum)]
+        | none => .atom "none"])
+  -- TTCFG.programs() (ProbDetGrammar.programs over a TTCFG): model `PS.T.programsR`, the three
+  -- decidable hypotheses of theorem C04_programs_ttcfg (same expressions as PS.T.rowsNodup /
+  -- noUnknownKey / noUnknownArg, which live in proof files), and the spec enumeration `langOf`
+  | .list [.atom "c04.programsT", g, fuel] => do
+      let G ← decTT g
+      let fuel ← fuel.nat?
+      let rowsNodup := G.rules.all (fun e => decide ((AList.keys e.2).Nodup))
+      let noUnknownKey := G.rules.all (fun e => decide (e.1.1 ≠ Ty.unknown))
+      let noUnknownArg := G.rules.all (fun e => e.2.all (fun r => r.2.1.all (fun a => decide (a.1 ≠ Ty.unknown))))
+      let n := PS.T.programsR G fuel
+      pure (.list [.list [ofBool rowsNodup, ofBool noUnknownKey, ofBool noUnknownArg], encOptNat n,
+        match n with
+        | some _ => ofNat (PS.T.langOf G fuel).length
         | none => .atom "none"])
   | .list [.atom "c04.fromcfg", g] => do
       let G ← decTT g
